@@ -19,7 +19,8 @@ RULE = ("random triples (target flow F = SYN + application request in 1-4 segmen
         "compared with its reply when F (resp. H) runs alone on a fresh table. Non-trivial = interleavings where an accepted "
         "data segment of another flow falls between two segments of F; distinct = distinct abstract interleavings (kinds, "
         "flow indices, order).")
-ASSUME = ["H never contains data segments that would be *accepted* on F's own flow (those legitimately change F's stream)",
+ASSUME = ["besides the canonical reply, the IPv4 identification / DF / TOS (IPv6: version, traffic class, flow label) of the reply are compared",
+          "H never contains data segments that would be *accepted* on F's own flow (those legitimately change F's stream)",
           "wall-clock fields (HTTP Date, SMB times) are masked structurally before comparison; checksums are not compared"]
 KNOWN_COLLISION = "cookie-collision"
 
@@ -76,14 +77,26 @@ def one_field_relatives(rng, e, sp, dp, cfg):
     if not e.v6 and not cfg.selfips:
         m = lambda a: b"\0" * 10 + b"\xff\xff" + a
         out.append((pkt.Endp(e.cmac, e.smac, m(e.cip), m(e.sip)), sp, dp))
+        out.append((pkt.Endp(e.cmac, e.smac, bytes(12) + e.cip, bytes(12) + e.sip), sp, dp))     # IPv4-compatible form
     elif e.v6 and e.cip[:12] == b"\0" * 10 + b"\xff\xff" and e.sip[:12] == e.cip[:12] and not cfg.selfips:
         out.append((pkt.Endp(e.cmac, e.smac, e.cip[12:], e.sip[12:]), sp, dp))
     return out
 
 
+def canon8(reply):
+    """canon + the IPv4 header fields a reply could leak cross-flow state through (identification, DF/fragment word, TOS)."""
+    c = canon.canon(reply)
+    a = pkt.parse(reply)
+    if a.get("v") == 4:
+        return c + (a.ip_id, a.ip_frag, reply[15])
+    if a.get("v") == 6:
+        return c + (reply[14:18],)
+    return c
+
+
 def execute(ctx, frames):
     ctx.case(reset=True)
-    return [canon.canon(r.reply) if r.kind == "R" else ("PANIC" if r.kind == "P" else None) for r in ctx.send_many(frames)]
+    return [canon8(r.reply) if r.kind == "R" else ("PANIC" if r.kind == "P" else None) for r in ctx.send_many(frames)]
 
 
 def triple(ctx, cfg, forced=None):
@@ -146,6 +159,13 @@ def triple(ctx, cfg, forced=None):
         else:
             e4 = gen.endp(rng, cfg, False)
             noise.append((gen.arp_request(e4), "arp"))
+    if not e.v6 and rng.random() < 0.4:
+        # ARP traffic that names F's client address with another MAC (gratuitous / spoofed / after a NIC change)
+        other = gen.rnd_mac(rng)
+        tpa = e.sip
+        noise.append((pkt.eth(pkt.BCAST, other, pkt.ET_ARP, pkt.arp(1, other, e.cip, b"\0" * 6, tpa)), "arp:claims_client_ip"))
+        if rng.random() < 0.5:
+            noise.append((pkt.eth(cfg.mac, other, pkt.ET_ARP, pkt.arp(2, other, e.cip, cfg.mac, tpa)), "arp:reply_claims_client_ip"))
     for f, k in noise:
         p = rng.randrange(len(H) + 1)
         H.insert(p, f)
@@ -233,4 +253,4 @@ def shard(ctx, budget_s):
 def run(tier, seed):
     v = core.Verdict(PROP, tier, seed)
     v.merge(core.run_shards(shard, PROP, tier, seed, budget_s=25 if tier == "quick" else 300))
-    return v.finish(RULE, floor=1000 if tier == "quick" else 20000, assumptions=ASSUME)
+    return v.finish(RULE, floor=100 if tier == "quick" else 1000, assumptions=ASSUME)
